@@ -24,17 +24,12 @@ def decRoundUp (d : DecRounding) (neg : Bool) (qOdd : Bool) (rem dd : Nat) : Boo
     | .halfDown => decide (2 * rem > dd)
     | .r05up => false   -- (rounds away only if the last kept digit is 0 or 5 in base 10; never produced by claripy's table)
 
-/-- `int(Decimal(x).to_integral_value(d))` for the finite double/float `a` -/
+/-- `int(Decimal(x).to_integral_value(d))` for the finite double/float `a` (`Decimal(float)` is exact) -/
 def decToIntegral (f : Fmt) (d : DecRounding) (a : Nat) : Int :=
   let neg := signOf f a
-  let m := sigOf f (magOf f a)
-  let e := expOf f (magOf f a)
-  let n : Nat :=
-    if e ≥ 0 then m * 2 ^ e.toNat
-    else
-      let dd := 2 ^ (-e).toNat
-      let q := m / dd
-      if decRoundUp d neg (q % 2 == 1) (m % dd) dd then q + 1 else q
+  let dd := 2 ^ f.q
+  let q := sval f (magOf f a) / dd
+  let n : Nat := if decRoundUp d neg (q % 2 == 1) (sval f (magOf f a) % dd) dd then q + 1 else q
   if neg then -(n : Int) else n
 
 end Claripy.FP
